@@ -730,6 +730,8 @@ func c02r7(r *R) {
 	o2 := r.Ob("C02.R7", "alpn:"+funcName(al)).At(al.Pos())
 	first := "assert[*tls.ALPNExtension](" + extI + ")#0.AlpnProtocols[0]"
 	n = 0
+	saw00, sawVal := false, false
+	whole := ""
 	for _, a := range fieldAccesses([]*ssa.Function{al}, jt, "FirstALPN") {
 		if a.Kind != "write" {
 			continue
@@ -737,7 +739,6 @@ func c02r7(r *R) {
 		st := a.Instr.(*ssa.Store)
 		o2.AtI(st)
 		// "00" when there is no ALPN value, otherwise the shortened first protocol (one store per case, or one store of the chosen value)
-		saw00, sawVal := false, false
 		for _, vc := range c.valueCases(st.Val, st.Block()) {
 			gs, v := vc.Guards, vc.E
 			if v == `"00"` {
@@ -752,16 +753,15 @@ func c02r7(r *R) {
 				o2.Check(strings.Contains(v, "#0.AlpnProtocols[0]"), "FirstALPN is %s", v)
 			}
 		}
-		if saw00 {
-			n++
-		}
-		if sawVal {
-			n++
-		}
-		whole := c.Expr(st.Val)
-		if sawVal {
-			o2.Check(strings.Contains(whole, `"99"`) && strings.Contains(whole, "[0]") && strings.Contains(whole, ") - 1)]"), "FirstALPN does not combine the first and the last character of the first protocol (or lacks the non-ASCII fallback): %s", whole)
-		}
+		whole += " | " + c.Expr(st.Val)
+	}
+	if saw00 {
+		n++
+	}
+	if sawVal {
+		n++
+		// over all the stores (one per case, or one store of the chosen value)
+		o2.Check(strings.Contains(whole, `"99"`) && strings.Contains(whole, "[0]") && strings.Contains(whole, ") - 1)]"), "FirstALPN does not combine the first and the last character of the first protocol (or lacks the non-ASCII fallback): %s", whole)
 	}
 	o2.Check(n == 2, "FirstALPN has %d of the two cases (\"00\" / shortened protocol)", n)
 	// the protocol examined is AlpnProtocols[0] under len > 0
